@@ -606,12 +606,18 @@ def step (H : Hashes) (dirLen : Nat) (s : State) : Op → State × Resp
                 let (s1, ok) := s.commitFile bd p c
                 if !ok then (s1, .err .InternalError)
                 else
-                  -- then the upload's metadata becomes the object's, the part files and the upload record are removed
+                  -- then the upload's metadata becomes the object's — without any, a metadata file left by the object it
+                  -- replaces is removed (cf67827) —
                   let s2 := match (if sideTooLong b k true then none else alLookup (b, k, id) s1.upMetas) with
-                    | none => s1
+                    | none => if sideTooLong b k false then s1 else { s1 with metas := alErase (b, k) s1.metas }
                     | some m => { s1 with metas := alInsert (b, k) (.good m) s1.metas, upMetas := alErase (b, k, id) s1.upMetas }
-                  ({ s2 with parts := eraseParts id (ps.map (·.1)) s2.parts, uploads := alErase id s2.uploads },
-                    .completed (some (etagOf H c)))
+                  -- the checksum record is reset (`save_internal_info` of an empty record, cf67827); then the part files and
+                  -- the upload record are removed
+                  if sideTooLong b k false then (s2, .err .InternalError)
+                  else
+                    ({ s2 with infos := alInsert (b, k) {} s2.infos, parts := eraseParts id (ps.map (·.1)) s2.parts,
+                               uploads := alErase id s2.uploads },
+                      .completed (some (etagOf H c)))
   | .abortMultipartUpload who b k u =>
     match u with
     | none => (s, .err .NoSuchUpload)
